@@ -15,10 +15,31 @@ open MdkVerif
 
 abbrev Path := List Nat
 
+/-- the fields of the `NostrGroupDataExtension` the model tracks (name / description tokens, the admin
+    set, the relay set as small numbers, the nostr group id as a number: 0 = the id chosen at creation) -/
+structure GData where
+  name : Nat
+  desc : Nat
+  admins : List Nat
+  relays : List Nat
+  nid : Nat
+  deriving DecidableEq, Repr, Inhabited
+
+/-- `NostrGroupDataUpdate`: the argument of `update_group_data`, every field optional -/
+structure DataUpd where
+  name : Option Nat := none
+  desc : Option Nat := none
+  admins : Option (List Nat) := none
+  relays : Option (List Nat) := none
+  nid : Option Nat := none
+  deriving DecidableEq, Repr, Inhabited
+
 inductive Body where
   | selfUpdate
-  | setName (tok : Nat)
-  | removeLeavers (who : List Nat)      -- admin's auto-commit of pending self-removals
+  /-- a GroupContextExtensions commit: it carries the WHOLE new extension (`update_group_context_extensions`
+      replaces the extension; `update_group_data` computes it from the committer's MLS state and the update) -/
+  | setData (d : GData)
+  | removeLeavers (who : List Nat)      -- admin's auto-commit of pending self-removals / `remove_members`
   deriving DecidableEq, Repr, Inhabited
 
 inductive Kind where
@@ -64,6 +85,9 @@ structure GState where
   members : List Nat
   admins : List Nat
   name : Nat
+  desc : Nat
+  relays : List Nat                     -- relay set of the extension (sorted, no duplicates)
+  nid : Nat                             -- nostr group id of the extension
   secrets : List (Nat × Path)          -- stored exporter secrets, by epoch NUMBER
   pending : Option Ev                   -- own staged commit
   props : List Nat                      -- queued leave proposals (who)
@@ -72,6 +96,9 @@ structure GState where
   recEpoch : Nat                        -- stored record
   recName : Nat
   recAdmins : List Nat
+  recDesc : Nat
+  recRelays : List Nat                  -- the group_relays table
+  recNid : Nat                          -- the record's nostr_group_id: what incoming `h` tags are looked up by
   last : Option (Nat × Nat)             -- cached last message (mid, msgTs)
   deriving DecidableEq, Repr, Inhabited
 
@@ -104,6 +131,8 @@ def eGroupNotFound := 1
 def eMessage := 2
 def eNonAdmin := 3
 def eGroup := 4
+def eUpdExts := 5      -- Error::UpdateGroupContextExts
+def eSelfUpdate := 6   -- Error::SelfUpdate
 def eOther := 9
 
 /-! ### records and rows -/
@@ -141,14 +170,15 @@ def withSecret (c : Cl) : Cl := { c with g := ensureSecret c.g }
 
 /-- `sync_group_metadata_from_mls` -/
 def syncRec (g : GState) : GState :=
-  { g with recEpoch := epochOf g.path, recName := g.name, recAdmins := g.admins }
+  { g with recEpoch := epochOf g.path, recName := g.name, recAdmins := g.admins, recDesc := g.desc,
+           recRelays := g.relays, recNid := g.nid }
 
 /-! ### applying a commit to the symbolic MLS state -/
 
 def applyBody (g : GState) (b : Body) : GState :=
   match b with
   | .selfUpdate => g
-  | .setName t => { g with name := t }
+  | .setData d => { g with name := d.name, desc := d.desc, admins := d.admins, relays := d.relays, nid := d.nid }
   | .removeLeavers who => { g with members := g.members.filter (fun m => !(who.contains m)), admins := g.admins }
 
 def mergeCommit (maxPast : Nat) (g : GState) (e : Ev) : GState :=
@@ -363,17 +393,59 @@ def send (c : Cl) (n ts idnum mid msgTs tok : Nat) : Cl × Res :=
     let c1 := { c with g := updLast g mid msgTs, msgs := upsertRow row c.msgs }
     (setRec c1 n { state := 0, epoch := some cur, hasGroup := true, mid := some mid }, .ev e)
 
-/-- `self_update` / `update_group_data(name)`: stage a commit (it sweeps the queued proposals: openmls
-    commit builders consume the proposal store) and publish it -/
+/-- the error kind openmls' refusal of a second pending commit surfaces as, per operation -/
+def pendingErr : Body → Nat
+  | .selfUpdate => eSelfUpdate          -- `self_update_with_new_signer(..)?`
+  | .setData _ => eUpdExts              -- `update_group_context_extensions(..)?`
+  | .removeLeavers _ => eGroup          -- `remove_members(..).map_err(Error::Group)`
+
+/-- `self_update` / `update_group_data` / `remove_members` after their argument checks: the admin check
+    (`is_leaf_node_admin` of the own leaf against the MLS state), then stage a commit (it sweeps the queued
+    proposals: openmls commit builders consume the proposal store) and publish it -/
 def stageCommit (c : Cl) (n ts idnum : Nat) (b : Body) (needAdmin : Bool) : Cl × Res :=
   if !c.hasGroup then (c, .err eGroup)
   else if needAdmin && !(isAdmin c.g c.id) then (c, .err eGroup)
-  else if c.g.pending.isSome then (c, .err eOther)
+  else if c.g.pending.isSome then (c, .err (pendingErr b))
   else
     let g := ensureSecret c.g
     let e : Ev := { n := n, ts := ts, idnum := idnum, cipher := n, sender := c.id, path := g.path, kind := .commit b g.props }
     let c1 := { c with g := { g with pending := some e } }
     (setRec c1 n { state := 2, epoch := some (epochOf g.path), hasGroup := true, mid := none }, .ev e)
+
+/-- insertion into a sorted duplicate-free list (`BTreeSet::insert`) -/
+def insertNat (x : Nat) : List Nat → List Nat
+  | [] => [x]
+  | y :: ys => if x < y then x :: y :: ys else if x = y then y :: ys else y :: insertNat x ys
+
+/-- `iter().collect::<BTreeSet<_>>()` -/
+def canonSet (l : List Nat) : List Nat := l.foldr insertNat []
+
+/-- the extension value of an MLS state -/
+def dataOf (g : GState) : GData :=
+  { name := g.name, desc := g.desc, admins := g.admins, relays := g.relays, nid := g.nid }
+
+/-- `update_group_data`: the fields that are specified replace the current ones -/
+def applyUpd (d : GData) (u : DataUpd) : GData :=
+  { name := u.name.getD d.name, desc := u.desc.getD d.desc,
+    admins := (u.admins.map canonSet).getD d.admins,
+    relays := (u.relays.map canonSet).getD d.relays, nid := u.nid.getD d.nid }
+
+/-- `validate_admin_update`: not empty, all of them current members (of the MLS state; queued removals
+    are not looked at) -/
+def adminUpdateOk (g : GState) (a : List Nat) : Bool := !a.isEmpty && a.all (fun x => g.members.contains x)
+
+/-- the admin list of an update is present and refused by `validate_admin_update` -/
+def adminsArgBad (g : GState) (u : DataUpd) : Bool :=
+  match u.admins with
+  | some a => !(adminUpdateOk g a)
+  | none => false
+
+/-- `update_group_data`: the new admin set is validated FIRST (before the caller's own admin check, so a
+    non-admin caller with a bad list is told about the list), then `update_group_data_extension` -/
+def updateData (c : Cl) (n ts idnum : Nat) (u : DataUpd) : Cl × Res :=
+  if !c.hasGroup then (c, .err eGroup)
+  else if adminsArgBad c.g u then (c, .err eUpdExts)
+  else stageCommit c n ts idnum (.setData (applyUpd (dataOf c.g) u)) true
 
 /-- `leave_group` -/
 def leave (c : Cl) (n ts idnum : Nat) : Cl × Res :=
@@ -398,8 +470,12 @@ def clear (c : Cl) : Cl × Res :=
 def restart (c : Cl) : Cl × Res :=
   if c.persistent then ({ c with mgr := c.mgr.map (fun s => { s with ts := 0 }) }, .ok) else (c, .skip)
 
+/-- the extension `create_group` writes: description token 0, relays `[1]`, nostr group id 0 -/
+def initData (admins : List Nat) (name : Nat) : GData := { name := name, desc := 0, admins := admins, relays := [1], nid := 0 }
+
+/-- the state `create_group` / the welcome leaves -/
 def initG (members admins : List Nat) (name : Nat) : GState :=
-  { path := [], members := members, admins := admins, name := name, secrets := [], pending := none, props := [], consumed := [], past := [], recEpoch := baseEpoch, recName := name, recAdmins := admins, last := none }
+  { path := [], members := members, admins := admins, name := name, desc := 0, relays := [1], nid := 0, secrets := [], pending := none, props := [], consumed := [], past := [], recEpoch := baseEpoch, recName := name, recAdmins := admins, recDesc := 0, recRelays := [1], recNid := 0, last := none }
 
 def initCl (id : Nat) (persistent : Bool) (retention : Nat) (members admins : List Nat) (name : Nat) : Cl :=
   { id := id, persistent := persistent, retention := retention, maxPast := 5, hasGroup := true, g := initG members admins name, msgs := [], recs := [], mgr := [] }
